@@ -135,6 +135,32 @@ theorem C06_rejected_absent_invisible (s : MemStore) (now : Nat) (k k' : Key) (r
     · subst hk; simp [hv]
     · simp only [hk, if_false]; rw [vis_def]
 
+/-- the same for append and prepend: a 'not found' answer means nothing was stored and no visible item changed -/
+theorem C06_rejected_absent_invisible_concat (s : MemStore) (now : Nat) (k k' : Key) (r : Record) :
+    ((applyOp s now (.append k r)).2 = .err .notFound →
+      (applyOp s now (.append k r)).1.vis now k' = s.vis now k') ∧
+    ((applyOp s now (.prepend k r)).2 = .err .notFound →
+      (applyOp s now (.prepend k r)).1.vis now k' = s.vis now k') := by
+  cases hv : s.vis now k with
+  | some x =>
+    constructor <;> intro hres <;> exfalso
+    · simp only [applyOp, Cmd.append, memOps, get_vis_some hv] at hres
+      rcases set_self_cases s now k _
+        with ⟨h1, _⟩ | ⟨h1, _⟩ | ⟨h1, _⟩ <;> rw [h1] at hres <;> simp [Res.ofCas] at hres
+    · simp only [applyOp, Cmd.prepend, memOps, get_vis_some hv] at hres
+      rcases set_self_cases s now k _
+        with ⟨h1, _⟩ | ⟨h1, _⟩ | ⟨h1, _⟩ <;> rw [h1] at hres <;> simp [Res.ofCas] at hres
+  | none =>
+    have hl := get_lookup s now k k'
+    obtain ⟨h2, _⟩ := get_vis_none hv
+    constructor <;> intro _ <;> simp only [applyOp, Cmd.append, Cmd.prepend, memOps] <;>
+      (rcases hg : s.get now k with ⟨s', res⟩
+       rw [hg] at h2 hl; simp only at h2 hl; subst h2
+       rw [vis_def s' now k', hl]
+       by_cases hk : k' = k
+       · subst hk; simp [hv]
+       · simp only [hk, if_false]; rw [vis_def])
+
 /-- the hypotheses are satisfiable: a store holding a live item -/
 example : (⟨[([1], ⟨⟨0, 1, 7, 0⟩, [65]⟩)], 2⟩ : MemStore).vis 5 [1] = some ⟨⟨0, 1, 7, 0⟩, [65]⟩ := by decide
 
@@ -149,3 +175,4 @@ end Memc
 #print axioms Memc.C06_concat_absent
 #print axioms Memc.C06_rejected_unchanged
 #print axioms Memc.C06_rejected_absent_invisible
+#print axioms Memc.C06_rejected_absent_invisible_concat
